@@ -5,6 +5,7 @@ carry is the temporal protocol the unsafe sites rely on; machine-level memory sa
 import DesyncModel.Spec
 import DesyncModel.Tables.Sync
 import DesyncModel.FactDrop
+import DesyncModel.FactUnsafe
 import DesyncModel.Lemmas
 import DesyncModel.Setters
 import DesyncModel.Inv.ErasedReach
@@ -21,6 +22,14 @@ def erased_job_inside_call_full : Prop :=
 
 /-- the value is freed through `sync` / `sync_no_panic`, i.e. by a job ordered after every other job -/
 theorem free_is_a_sync_job : dropUses = ["sync", "sync_no_panic"] := drop_frees_through_sync
+
+/-- ... and only so: `Drop` contains no release of the value outside the closure of that job (a direct release could run while a
+suspended operation of the queue still holds its `&mut T`) -/
+theorem free_only_inside_its_job : dropFreesOutsideJob = 0 := drop_frees_only_inside_its_job
+
+/-- the inventory of `unsafe` in the source is the one these theorems are about (regenerated on every run) -/
+theorem unsafe_inventory :
+    unsafeSites = [("desync.rs", 10), ("scheduler/desync_scheduler.rs", 2), ("scheduler/unsafe_job.rs", 4)] := unsafe_sites_are_the_modelled_ones
 
 /-- `sync_drain` does not leave its loop before its erased job is done -/
 theorem drain_owner_waits (s s' : State) (a q j : Nat) (act : Act) (o : Obs) (jb : Job)
